@@ -50,11 +50,13 @@ def _p(pid, rules, decided, declined, explanation, level='other', floors=None, a
                       floors=floors or {}, assumptions=list(assumptions) + COMMON_ASSUMPTIONS, exhaustive=exhaustive)
 
 
-_p('C18', ['H1', 'H3'],
+_p('C18', ['H1', 'H3', 'E10'],
    decided=["every struct-style code and endianness prefix maps to the dtype struct defines (regex classes = "
             "replacement tables = size table = struct.calcsize; prefix branches exhaustive)",
             "native-endian aliases point at the le/be dtype in the matching sys.byteorder branch (both branches, "
-            "including the one this host never executes)"],
+            "including the one this host never executes)",
+            "Array accepts array.array input only when kind and width match: extend and equals both consult typecode "
+            "and itemsize of the foreign array"],
    declined=["byte-for-byte equality with struct.pack for every value; byteswap twice = identity (run-time values)"],
    explanation="Static table agreement: the character classes of the four struct regexes (via re._parser), the keys "
                "of REPLACEMENTS_BE/LE/NE and PACK_CODE_SIZE are compared with each other and with "
@@ -194,7 +196,7 @@ _p('C13', ['HASH', 'J1', 'J2', 'D3', 'L'],
    explanation="MRO resolution of __hash__/__eq__/__ne__ per class, field-dependence reachability, handler check of the "
                "promotion TypeError.")
 
-_p('C16', ['A5', 'A8', 'A10', 'E6', 'K', 'C', 'L'],
+_p('C16', ['A1', 'A5', 'A8', 'A10', 'E6', 'K', 'C', 'L'],
    decided=["operands are never modified by the non-in-place forms, including when both operands are the same object: no "
             "self store effect in the public operators of the immutable classes; mutated temporaries own fresh stores; "
             "BitStore-level binary operators and _copy build new stores",
